@@ -1241,6 +1241,8 @@ class FuncGen:
             sym = '/' if op == 'udiv' else '%'
             if pre is not None:
                 pre.append('__CPROVER_assert(%s != 0, "UB.div-zero: %s in %s");' % (y, op, S))
+            if n in (8, 16, 32, 64, 128):
+                return 'VP_%s%d(%s, %s)' % (op.upper(), n, x, y)
             return '((%s)(%s %s %s))' % (ct, x, sym, y)
         if op in ('sdiv', 'srem'):
             sym = '/' if op == 'sdiv' else '%'
@@ -1253,6 +1255,8 @@ class FuncGen:
             if self.cg.div_helpers:
                 self.cg.used_helpers.add(('sdivrem', n))
                 return '((%s)vp_%s%d(%s, %s))' % (ct, op, n, sx, sy)
+            if n in (8, 16, 32, 64, 128):
+                return 'VP_%s%d(%s, %s)' % (op.upper(), n, x, y)
             return '((%s)(%s %s %s))' % (ct, sx, sym, sy)
         raise Unsupported('binop ' + op)
 
@@ -1691,6 +1695,8 @@ def ovf(sym, n, x, y, signed):
         # operands of these widths are not promoted by C, so CBMC's dedicated overflow predicates are exact (and much
         # cheaper for multiplication than a 2n+2-bit product)
         fn = {'+': 'plus', '-': 'minus', '*': 'mult'}[sym]
+        if sym == '*' and signed:
+            return 'VP_SMULOVF%d(%s, %s)' % (n, x, y)     # the shared (possibly abstracted) signed-product-overflow predicate
         return '__CPROVER_overflow_%s(%s, %s)' % (fn, x, y)
     k = (2 * n + 2) if sym == '*' else n + 2
     wk = '__CPROVER_bitvector[%d]' % k
@@ -1732,6 +1738,69 @@ typedef __int128 vp_s128;
 /* every IR 'mul' goes through VP_MULn: the machine product modulo 2^n, or -- when a job abstracts multiplication
    (-DVP_ABSTRACT_MUL) -- one uninterpreted function per width shared by the extracted code and the contract text, so
    that relational obligations follow by congruence instead of a multiplier-equivalence SAT problem */
+#ifdef VP_ABSTRACT_DIV
+uint8_t __CPROVER_uninterpreted_udiv8(uint8_t, uint8_t);
+#define VP_UDIV8(a, b) __CPROVER_uninterpreted_udiv8((uint8_t)(a), (uint8_t)(b))
+uint8_t __CPROVER_uninterpreted_urem8(uint8_t, uint8_t);
+#define VP_UREM8(a, b) __CPROVER_uninterpreted_urem8((uint8_t)(a), (uint8_t)(b))
+uint8_t __CPROVER_uninterpreted_sdiv8(uint8_t, uint8_t);
+#define VP_SDIV8(a, b) __CPROVER_uninterpreted_sdiv8((uint8_t)(a), (uint8_t)(b))
+uint8_t __CPROVER_uninterpreted_srem8(uint8_t, uint8_t);
+#define VP_SREM8(a, b) __CPROVER_uninterpreted_srem8((uint8_t)(a), (uint8_t)(b))
+uint16_t __CPROVER_uninterpreted_udiv16(uint16_t, uint16_t);
+#define VP_UDIV16(a, b) __CPROVER_uninterpreted_udiv16((uint16_t)(a), (uint16_t)(b))
+uint16_t __CPROVER_uninterpreted_urem16(uint16_t, uint16_t);
+#define VP_UREM16(a, b) __CPROVER_uninterpreted_urem16((uint16_t)(a), (uint16_t)(b))
+uint16_t __CPROVER_uninterpreted_sdiv16(uint16_t, uint16_t);
+#define VP_SDIV16(a, b) __CPROVER_uninterpreted_sdiv16((uint16_t)(a), (uint16_t)(b))
+uint16_t __CPROVER_uninterpreted_srem16(uint16_t, uint16_t);
+#define VP_SREM16(a, b) __CPROVER_uninterpreted_srem16((uint16_t)(a), (uint16_t)(b))
+uint32_t __CPROVER_uninterpreted_udiv32(uint32_t, uint32_t);
+#define VP_UDIV32(a, b) __CPROVER_uninterpreted_udiv32((uint32_t)(a), (uint32_t)(b))
+uint32_t __CPROVER_uninterpreted_urem32(uint32_t, uint32_t);
+#define VP_UREM32(a, b) __CPROVER_uninterpreted_urem32((uint32_t)(a), (uint32_t)(b))
+uint32_t __CPROVER_uninterpreted_sdiv32(uint32_t, uint32_t);
+#define VP_SDIV32(a, b) __CPROVER_uninterpreted_sdiv32((uint32_t)(a), (uint32_t)(b))
+uint32_t __CPROVER_uninterpreted_srem32(uint32_t, uint32_t);
+#define VP_SREM32(a, b) __CPROVER_uninterpreted_srem32((uint32_t)(a), (uint32_t)(b))
+uint64_t __CPROVER_uninterpreted_udiv64(uint64_t, uint64_t);
+#define VP_UDIV64(a, b) __CPROVER_uninterpreted_udiv64((uint64_t)(a), (uint64_t)(b))
+uint64_t __CPROVER_uninterpreted_urem64(uint64_t, uint64_t);
+#define VP_UREM64(a, b) __CPROVER_uninterpreted_urem64((uint64_t)(a), (uint64_t)(b))
+uint64_t __CPROVER_uninterpreted_sdiv64(uint64_t, uint64_t);
+#define VP_SDIV64(a, b) __CPROVER_uninterpreted_sdiv64((uint64_t)(a), (uint64_t)(b))
+uint64_t __CPROVER_uninterpreted_srem64(uint64_t, uint64_t);
+#define VP_SREM64(a, b) __CPROVER_uninterpreted_srem64((uint64_t)(a), (uint64_t)(b))
+vp_u128 __CPROVER_uninterpreted_udiv128(vp_u128, vp_u128);
+#define VP_UDIV128(a, b) __CPROVER_uninterpreted_udiv128((vp_u128)(a), (vp_u128)(b))
+vp_u128 __CPROVER_uninterpreted_urem128(vp_u128, vp_u128);
+#define VP_UREM128(a, b) __CPROVER_uninterpreted_urem128((vp_u128)(a), (vp_u128)(b))
+vp_u128 __CPROVER_uninterpreted_sdiv128(vp_u128, vp_u128);
+#define VP_SDIV128(a, b) __CPROVER_uninterpreted_sdiv128((vp_u128)(a), (vp_u128)(b))
+vp_u128 __CPROVER_uninterpreted_srem128(vp_u128, vp_u128);
+#define VP_SREM128(a, b) __CPROVER_uninterpreted_srem128((vp_u128)(a), (vp_u128)(b))
+#else
+#define VP_UDIV8(a, b) ((uint8_t)((uint8_t)(a) / (uint8_t)(b)))
+#define VP_UREM8(a, b) ((uint8_t)((uint8_t)(a) % (uint8_t)(b)))
+#define VP_SDIV8(a, b) ((uint8_t)((int8_t)(a) / (int8_t)(b)))
+#define VP_SREM8(a, b) ((uint8_t)((int8_t)(a) % (int8_t)(b)))
+#define VP_UDIV16(a, b) ((uint16_t)((uint16_t)(a) / (uint16_t)(b)))
+#define VP_UREM16(a, b) ((uint16_t)((uint16_t)(a) % (uint16_t)(b)))
+#define VP_SDIV16(a, b) ((uint16_t)((int16_t)(a) / (int16_t)(b)))
+#define VP_SREM16(a, b) ((uint16_t)((int16_t)(a) % (int16_t)(b)))
+#define VP_UDIV32(a, b) ((uint32_t)((uint32_t)(a) / (uint32_t)(b)))
+#define VP_UREM32(a, b) ((uint32_t)((uint32_t)(a) % (uint32_t)(b)))
+#define VP_SDIV32(a, b) ((uint32_t)((int32_t)(a) / (int32_t)(b)))
+#define VP_SREM32(a, b) ((uint32_t)((int32_t)(a) % (int32_t)(b)))
+#define VP_UDIV64(a, b) ((uint64_t)((uint64_t)(a) / (uint64_t)(b)))
+#define VP_UREM64(a, b) ((uint64_t)((uint64_t)(a) % (uint64_t)(b)))
+#define VP_SDIV64(a, b) ((uint64_t)((int64_t)(a) / (int64_t)(b)))
+#define VP_SREM64(a, b) ((uint64_t)((int64_t)(a) % (int64_t)(b)))
+#define VP_UDIV128(a, b) ((vp_u128)((vp_u128)(a) / (vp_u128)(b)))
+#define VP_UREM128(a, b) ((vp_u128)((vp_u128)(a) % (vp_u128)(b)))
+#define VP_SDIV128(a, b) ((vp_u128)((vp_s128)(a) / (vp_s128)(b)))
+#define VP_SREM128(a, b) ((vp_u128)((vp_s128)(a) % (vp_s128)(b)))
+#endif
 #ifdef VP_ABSTRACT_FP
 float __CPROVER_uninterpreted_fdivf(float, float);
 double __CPROVER_uninterpreted_fdivd(double, double);
@@ -1758,7 +1827,16 @@ vp_u128 __CPROVER_uninterpreted_mul128(vp_u128, vp_u128);
 #define VP_MUL32(a, b) __CPROVER_uninterpreted_mul32((uint32_t)(a), (uint32_t)(b))
 #define VP_MUL64(a, b) __CPROVER_uninterpreted_mul64((uint64_t)(a), (uint64_t)(b))
 #define VP_MUL128(a, b) __CPROVER_uninterpreted_mul128((vp_u128)(a), (vp_u128)(b))
+_Bool __CPROVER_uninterpreted_smulovf32(uint32_t, uint32_t);
+_Bool __CPROVER_uninterpreted_smulovf64(uint64_t, uint64_t);
+_Bool __CPROVER_uninterpreted_smulovf128(vp_u128, vp_u128);
+#define VP_SMULOVF32(a, b) __CPROVER_uninterpreted_smulovf32((uint32_t)(a), (uint32_t)(b))
+#define VP_SMULOVF64(a, b) __CPROVER_uninterpreted_smulovf64((uint64_t)(a), (uint64_t)(b))
+#define VP_SMULOVF128(a, b) __CPROVER_uninterpreted_smulovf128((vp_u128)(a), (vp_u128)(b))
 #else
+#define VP_SMULOVF32(a, b) __CPROVER_overflow_mult((int32_t)(a), (int32_t)(b))
+#define VP_SMULOVF64(a, b) __CPROVER_overflow_mult((int64_t)(a), (int64_t)(b))
+#define VP_SMULOVF128(a, b) __CPROVER_overflow_mult((vp_s128)(a), (vp_s128)(b))
 #define VP_MUL8(a, b) ((uint8_t)((uint32_t)(a) * (uint32_t)(b)))
 #define VP_MUL16(a, b) ((uint16_t)((uint32_t)(a) * (uint32_t)(b)))
 #define VP_MUL32(a, b) ((uint32_t)((uint32_t)(a) * (uint32_t)(b)))
